@@ -549,7 +549,7 @@ class ContractMixin:
         return ci
 
     # ------------------------------------------------------------------ loops
-    def loop_with_invariant(self, node, st, kind, iterable=None):
+    def loop_with_invariant(self, node, st, kind, iterable=None, reverse=False):
         qual = st.env.get("__qual__")
         ordinal = self.loop_ordinals.get(id(node))
         ci = self.cur_ci
@@ -668,7 +668,8 @@ class ContractMixin:
             s1.assume(c)
             gh = dict(ghosts)
             if seq_mode:
-                elem = Val(iterable.ty.elem, [iterable.t[ghosts["_i"].t]])
+                pos = (z3.Length(iterable.t) - 1 - ghosts["_i"].t) if reverse else ghosts["_i"].t
+                elem = Val(iterable.ty.elem, [iterable.t[pos]])
                 self.assume_wellformed(s1, elem)
                 starts = self.assign(node.target, elem, s1, node)
             elif set_mode:
